@@ -13,11 +13,11 @@ CONFIGS_THOROUGH = ["A", "B", "C", "R", "X"]
 EXPLANATION = (
     "Decided (static, MIR): C17.1 free-running ring counters (the local head/tail fields and every load of a kernel head/tail word, closed under arithmetic) are only combined with wrapping_add/wrapping_sub, masked with `& ring_mask`, "
     "compared with ==/!=, or - as a wrapping difference - ordered against the ring size; a plain +/- (overflow panic in debug builds when the 32-bit index wraps) or an ordered comparison of two raw counters (wrong for ever after a wrap) is a violation; "
-    "C17.2 a submission slot is handed out only under (tail+1) - head <= entries (wrapping), its index is (tail & mask) << shift, the completion index is (head & mask) << shift, flush publishes exactly the local tail; "
+    "C17.2 a submission slot is handed out only under (tail+1) - head <= entries (wrapping), its index is (tail & mask) << shift, the completion index is (head & mask) << shift, flush publishes exactly the local tail and leaves it unpublished only on the edge where the private head EQUALS the private tail (not a masked distance, which is 0 for a full ring too); "
     "C17.3 orderings on the shared words: the completion tail is loaded with >= Acquire before the entry is read, the completion head is advanced with >= Release, under SQPOLL the submission tail is published with >= Release and the kernel head loaded with >= Acquire, "
     "and the branch choosing them tests the SQPOLL flag; C17.4 the function that returns a reference into the completion array does not advance the completion head before returning it; "
     "C17.5 the cursors have one writer each: local tail only in get_next_sqe_slot, local head only in flush, the kernel tail only through the two sync_ktail_* helpers, the completion head only through advance; the cursor fields are not public. "
-    "C17.7 the slot -> entry index array is initialised as the identity over the ring size the kernel reports (not the requested size), so each submitted entry is consumed exactly once; "
+    "C17.7 the slot -> entry index array is initialised as the identity over the ring size the kernel reports (not the requested size), so each submitted entry is consumed exactly once, and every ring word (head, tail, flags, dropped/overflow, mask, entries) is located through its own ring's offset table under its own name; "
     "C17.6 type-level witnesses: the ring cursors (submission_queue / completion_queue) cannot be reached from outside rusl; "
     "NOT decided: the kernel's side of the protocol, interleavings with a concurrent kernel beyond these ordering obligations, that submitted entries are consumed.")
 ASSUMPTIONS = ["io_uring ABI: head/tail are free-running u32 indices, masked by ring_mask on use", "without SQPOLL the kernel reads the submission tail during io_uring_enter (Relaxed suffices)"]
